@@ -401,6 +401,15 @@ def mon_C03(ctx, ops, states):
             if k in ('check', 'update') and cfg and good in listed(o):
                 ends = True
             if k == 'update' and st['out'] == '1' and o['resp']['patch']['num'] == good:
+                # a re-install of the last good number rewrites its artifact with that download's verified bytes: with one
+                # content per number (same length as the last good record) it is still the last good patch, followed
+                # further under its new tag; another content under the same number ends the claim
+                lb2 = pstate(st)['lb']
+                a2 = st['arts'].get(good)
+                if lb2 is not None and lb2['num'] == good and a2 is not None and a2.startswith('F%d.' % lb2['size']) and \
+                        a2.split('.')[0] == (tag or '').split('.')[0]:
+                    tag = a2
+                    continue
                 ends = True
             if dmg_num(o) == good or state_dmg(o):
                 ends = True
